@@ -127,4 +127,91 @@ def altLoop (nn : Bool → Nat → Nat) : Nat → AltState → Option AltState
   | 0, st => if st.ch0 || st.ch1 then none else some st
   | fuel + 1, st => if st.ch0 || st.ch1 then altLoop nn fuel (altStep nn st) else some st
 
+/-!
+## The loop as repaired: cycle guard, any deterministic search
+
+```
+seen_states = set()
+while changed[0] or changed[1]:
+    state = (query_side, indices[0].tobytes(), indices[1].tobytes(), bool(changed[0]), bool(changed[1]))
+    if state in seen_states:
+        break
+    seen_states.add(state)
+    inds, dists, _ = search_closure(query_points, candidate_indices, ...)     # query_points = raw_data[indices[query_side]],
+    ...                                                                        # candidate_indices = indices[1 - query_side]
+```
+
+`srch side q c` = the column `inds[:, 0]` the (deterministic, approximate, tie-breaking) restricted search
+returns for the query points `q` seeded with the candidates `c`; nothing is assumed about it.
+`tobytes()` distinguishes the two initial sample arrays (`int64`, from `component[rejection_sample(..)]`)
+from every later array (`int32`, `np.unique` of result-heap indices): the loop key carries one tag per side
+(`true` = still the initial sample).
+-/
+
+/-- one iteration of the `while` body with a general search -/
+def altStepG (srch : Bool → List Nat → List Nat → List Nat) (st : AltState) : AltState :=
+  if st.side = false then
+    let new := uniq (srch false st.idx0 st.idx1)
+    { st with idx1 := new, side := true,
+              ch1 := if st.idx1.length = new.length then decide (st.idx1 ≠ new) else st.ch1 }
+  else
+    let new := uniq (srch true st.idx1 st.idx0)
+    { st with idx0 := new, side := false,
+              ch0 := if st.idx0.length = new.length then decide (st.idx0 ≠ new) else st.ch0 }
+
+/-- a `while cont(st): st = step(st)` loop; `none` = still running after `fuel` iterations -/
+def plainLoop {S : Type} (step : S → S) (cont : S → Bool) : Nat → S → Option S
+  | 0, st => if cont st then none else some st
+  | fuel + 1, st => if cont st then plainLoop step cont fuel (step st) else some st
+
+/-- the same loop with the guard `if st in seen: break; seen.add(st)` at the top of the body.
+Result: the state at exit, whether the guard fired, and the number of iterations performed. -/
+def seenLoop {S : Type} [DecidableEq S] (step : S → S) (cont : S → Bool) : Nat → List S → S → Option (S × Bool × Nat)
+  | 0, seen, st =>
+    if cont st = false then some (st, false, seen.length)
+    else if st ∈ seen then some (st, true, seen.length) else none
+  | fuel + 1, seen, st =>
+    if cont st = false then some (st, false, seen.length)
+    else if st ∈ seen then some (st, true, seen.length)
+    else seenLoop step cont fuel (st :: seen) (step st)
+
+/-- loop key = what the tuple `state` of the code distinguishes -/
+abbrev AltKey := AltState × Bool × Bool
+
+def altKeyStep (srch : Bool → List Nat → List Nat → List Nat) (k : AltKey) : AltKey :=
+  (altStepG srch k.1, if k.1.side = false then (k.2.1, false) else (false, k.2.2))
+
+def altKeyCont (k : AltKey) : Bool := k.1.ch0 || k.1.ch1
+
+/-- `find_component_connection_edge`'s loop from the freshly sampled seeds -/
+def altLoopSeen (srch : Bool → List Nat → List Nat → List Nat) (fuel : Nat) (idx0 idx1 : List Nat) :
+    Option (AltKey × Bool × Nat) :=
+  seenLoop (altKeyStep srch) altKeyCont fuel [] (⟨idx0, idx1, false, true, true⟩, true, true)
+
+/-!
+### best-edge bookkeeping
+
+```
+for i in range(dists.shape[0]):
+    for j in range(dists.shape[1]):
+        if dists[i, j] < best_dist:
+            best_dist = dists[i, j]
+            best_edge = (indices[query_side][i], inds[i, j])
+```
+-/
+structure Best (P : Type) where
+  dist : P
+  a : Int
+  b : Int
+deriving Repr
+
+def bestRow {P : Type} [LT P] [DecidableLT P] (q : Int) : List (Int × P) → Best P → Best P
+  | [], b => b
+  | (v, d) :: rest, b => bestRow q rest (if d < b.dist then ⟨d, q, v⟩ else b)
+
+/-- one round: `rows` = for every query point (in order) its id and its sorted result row -/
+def bestRound {P : Type} [LT P] [DecidableLT P] : List (Int × List (Int × P)) → Best P → Best P
+  | [], b => b
+  | (q, row) :: rest, b => bestRound rest (bestRow q row b)
+
 end Pynn.Connect
